@@ -207,6 +207,10 @@ def call_app(app, method, path, payload=None):
 def spell(world, op, cwd, root_abs):
     """Materialises a path spelling: op["path"] = {"start": anchor, "segs": [...], "abs": bool}."""
     p = op["path"]
+    if p.get("literal") is not None:
+        # sent exactly as written: spellings that some layer might expand (~, ~user, $HOME, %-escapes) - to the server
+        # they are ordinary relative names under the cwd
+        return p["literal"]
     anchors = {
         "root": root_abs, "W": world.W, "outside": world.p("outside"), "sibling": world.p("root_sibling"), "cwd": cwd,
         "static": world.p("static"), "root2": world.p("root2"), "fsroot": "/", "origroot": world.p("root"), "sub": world.p("root/sub"),
@@ -258,6 +262,8 @@ def run_one(spec: dict) -> dict:
     app.root_path = Path(world.p("root"))
     os.chdir(world.p("cwd"))
     os.environ.pop("SQLLINEAGE_DIRECTORY", None)
+    old_home = os.environ.get("HOME")
+    os.environ["HOME"] = world.p("outside")  # the operator's home directory: a place outside every root, with files in it
     _faults.plan = [dict(f) for f in spec.get("faults", [])]
     _faults.count = {}
     _faults.fired = {}
@@ -561,6 +567,10 @@ def run_one(spec: dict) -> dict:
             line_digest = sched.trace_digest.hexdigest()[:24]
     finally:
         os.chdir(old_cwd)
+        if old_home is None:
+            os.environ.pop("HOME", None)
+        else:
+            os.environ["HOME"] = old_home
         drawing.STATIC_FOLDER = old_static
         os.environ.pop("SQLLINEAGE_DIRECTORY", None)
         _faults.active = False
@@ -607,6 +617,8 @@ def _classify(op, outside, world, target, roots):
     if op["method"] != "POST" or "path" not in op:
         return out
     segs = op["path"]["segs"]
+    if op["path"].get("literal") is not None:
+        out.append("literal_expandable_spelling")
     if outside:
         if ".." in segs:
             out.append("outside_dotdot")
@@ -642,6 +654,10 @@ SEGS = ["..", ".", "../o.sql", "../../outside/o.sql", "../s.sql", "a.sql", "sub"
 
 def gen_path(g, inside_bias=True, any_root=False):
     r = g.random()
+    if inside_bias and g.random() < 0.05:
+        return {"start": "cwd", "segs": [], "abs": False,
+                "literal": g.choice(["~/o.sql", "~/more/m.sql", "~", "~/", "~/../outside/o.sql", "$HOME/o.sql", "${HOME}/o.sql", "%7E/o.sql", "~root/o.sql", "~nobody/o.sql",
+                                     "./~/o.sql", "~/o.sql/", "%2e%2e/outside/o.sql", "..%2foutside%2fo.sql", "file://" + "/etc/hostname"])}
     if any_root and r < 0.6:
         # threaded class: the root moves between root, root2 and root/sub, so aim at files of EVERY possible root -
         # whichever is not in force right now is an outside path that exists
